@@ -18,7 +18,8 @@ Body(n, salt) ==
   ELSE IF salt % 8 = 0 /\ n >= 7 THEN [b EXCEPT ![1] = 1, ![2] = 0, ![3] = 1, ![4] = 1, ![5] = 0, ![6] = 1]
   ELSE b
 U(t, nri, n, salt) == <<nri * 32 + t>> \o Body(n - 1, salt)
-SizesFor(m) == SetToSeq({ n \in {2, 3, m - 2, m - 1, m, m + 1, m + 2, 2 * m - 3, 2 * m - 2, 2 * m - 1, 2 * m, 3 * m} : n >= 2 })
+\* around one, two and three fragment capacities (capacity = m - 2, one more byte for the unit's own header byte)
+SizesFor(m) == SetToSeq({ n \in {2, 3, 3 * m} \cup ((m - 2)..(m + 2)) \cup ((2 * m - 6)..(2 * m)) \cup ((3 * m - 9)..(3 * m - 3)) : n >= 2 })
 TypeSeq == <<1, 5, 6, 7, 8, 9, 12, 23>>
 \* S1: one call, one unit
 S1 == LET F(mi) == LET m == MtuSeq[mi]  sz == SizesFor(m) IN
